@@ -89,9 +89,11 @@ pub fn run(ctx: &mut Ctx) {
                     }
                     st.configuration.new_erc_name_probability = pnew;
                     // interpreter flags and stack contents are not inputs of the generator
-                    st.quote_name = case % 4 == 1;
-                    st.send_name = case % 8 == 3;
-                    if case % 3 == 0 {
+                    // (drawn, not derived from the case number: residues of nested loop counters alias)
+                    let mut fr = Rng::derive(ctx.seed, &[12, 7, case]);
+                    st.quote_name = fr.chance(1, 3);
+                    st.send_name = fr.chance(1, 4);
+                    if fr.chance(1, 3) {
                         st.name_stack.push("a".to_string());
                         st.int_stack.push(7);
                     }
